@@ -5,6 +5,7 @@ CONSTANTS
   Reenters = {0, 1, 2}
   Lockeds = {TRUE}
   Timeouts = TRUE
+  CbThrows = {FALSE}
   ClearOutsideLock = TRUE
   SoleOwnerOnly = TRUE
 
